@@ -190,4 +190,233 @@ theorem bsInv_run (w t : Nat) (xs : List BSIn) : ∀ (s : BSState) (L : List Nat
     cases hti : x.ti <;> simpa [hti] using this
 
 
+
+/-- Drift bound: never more than `R` consecutive instants that have an i-clock edge but no o-clock edge
+    (`q` = length of the current run of such instants).  The i clock may be up to `R+1` times faster than the
+    o clock; nothing is assumed in the other direction. -/
+def IBurst (R : Nat) : Nat → List BSIn → Prop
+  | _, [] => True
+  | q, x :: xs =>
+    if x.tO then IBurst R 0 xs
+    else if x.ti then q < R ∧ IBurst R (q + 1) xs
+    else IBurst R q xs
+
+/-- Upper bound on the number of timer decrements still to come before the timer is reloaded, by ring phase:
+    four o-edges (each after at most `R` i-only instants, possibly coinciding with an i-edge) take the request
+    to `_pong.toggle_i`; two more i-edges bring the acknowledge to `_pong.o`. -/
+def rem (R : Nat) (p : Fin 8) (q : Nat) : Nat :=
+  match p.val with
+  | 0 => 0
+  | 1 => 4 * R + 6 - q
+  | 2 => 3 * R + 5 - q
+  | 3 => 2 * R + 4 - q
+  | 4 => R + 3 - q
+  | 5 => 2
+  | 6 => 1
+  | _ => 0
+
+def qNext (q : Nat) (ti tO : Bool) : Nat := if tO then 0 else if ti then q + 1 else q
+
+theorem fv0 : ((0 : Fin 8) : Nat) = 0 := rfl
+theorem fv1 : ((1 : Fin 8) : Nat) = 1 := rfl
+theorem fv2 : ((2 : Fin 8) : Nat) = 2 := rfl
+theorem fv3 : ((3 : Fin 8) : Nat) = 3 := rfl
+theorem fv4 : ((4 : Fin 8) : Nat) = 4 := rfl
+theorem fv5 : ((5 : Fin 8) : Nat) = 5 := rfl
+theorem fv6 : ((6 : Fin 8) : Nat) = 6 := rfl
+theorem fv7 : ((7 : Fin 8) : Nat) = 7 := rfl
+
+set_option linter.unusedSimpArgs false in
+theorem rem_step0 (R q : Nat) (ti tO mp mq : Bool) (hq : q ≤ R)
+    (hs : tO = false → ti = true → q < R) :
+    (ti = true ∧ ((0 : Fin 8).val = 0 ∨ (0 : Fin 8).val = 7) → rem R (pstep 0 ti tO mp mq).1 (qNext q ti tO) ≤ 4 * R + 6) ∧
+    (¬ (ti = true ∧ ((0 : Fin 8).val = 0 ∨ (0 : Fin 8).val = 7)) →
+      rem R (pstep 0 ti tO mp mq).1 (qNext q ti tO) + (if ti then 1 else 0) ≤ rem R 0 q) ∧
+    qNext q ti tO ≤ R := by
+  cases ti <;> cases tO <;> cases mp <;> cases mq <;>
+    simp [pstep, rem, qNext, fv0, fv1, fv2, fv3, fv4, fv5, fv6, fv7] at hs ⊢ <;> omega
+
+set_option linter.unusedSimpArgs false in
+theorem rem_step1 (R q : Nat) (ti tO mp mq : Bool) (hq : q ≤ R)
+    (hs : tO = false → ti = true → q < R) :
+    (ti = true ∧ ((1 : Fin 8).val = 0 ∨ (1 : Fin 8).val = 7) → rem R (pstep 1 ti tO mp mq).1 (qNext q ti tO) ≤ 4 * R + 6) ∧
+    (¬ (ti = true ∧ ((1 : Fin 8).val = 0 ∨ (1 : Fin 8).val = 7)) →
+      rem R (pstep 1 ti tO mp mq).1 (qNext q ti tO) + (if ti then 1 else 0) ≤ rem R 1 q) ∧
+    qNext q ti tO ≤ R := by
+  cases ti <;> cases tO <;> cases mp <;> cases mq <;>
+    simp [pstep, rem, qNext, fv0, fv1, fv2, fv3, fv4, fv5, fv6, fv7] at hs ⊢ <;> omega
+
+set_option linter.unusedSimpArgs false in
+theorem rem_step2 (R q : Nat) (ti tO mp mq : Bool) (hq : q ≤ R)
+    (hs : tO = false → ti = true → q < R) :
+    (ti = true ∧ ((2 : Fin 8).val = 0 ∨ (2 : Fin 8).val = 7) → rem R (pstep 2 ti tO mp mq).1 (qNext q ti tO) ≤ 4 * R + 6) ∧
+    (¬ (ti = true ∧ ((2 : Fin 8).val = 0 ∨ (2 : Fin 8).val = 7)) →
+      rem R (pstep 2 ti tO mp mq).1 (qNext q ti tO) + (if ti then 1 else 0) ≤ rem R 2 q) ∧
+    qNext q ti tO ≤ R := by
+  cases ti <;> cases tO <;> cases mp <;> cases mq <;>
+    simp [pstep, rem, qNext, fv0, fv1, fv2, fv3, fv4, fv5, fv6, fv7] at hs ⊢ <;> omega
+
+set_option linter.unusedSimpArgs false in
+theorem rem_step3 (R q : Nat) (ti tO mp mq : Bool) (hq : q ≤ R)
+    (hs : tO = false → ti = true → q < R) :
+    (ti = true ∧ ((3 : Fin 8).val = 0 ∨ (3 : Fin 8).val = 7) → rem R (pstep 3 ti tO mp mq).1 (qNext q ti tO) ≤ 4 * R + 6) ∧
+    (¬ (ti = true ∧ ((3 : Fin 8).val = 0 ∨ (3 : Fin 8).val = 7)) →
+      rem R (pstep 3 ti tO mp mq).1 (qNext q ti tO) + (if ti then 1 else 0) ≤ rem R 3 q) ∧
+    qNext q ti tO ≤ R := by
+  cases ti <;> cases tO <;> cases mp <;> cases mq <;>
+    simp [pstep, rem, qNext, fv0, fv1, fv2, fv3, fv4, fv5, fv6, fv7] at hs ⊢ <;> omega
+
+set_option linter.unusedSimpArgs false in
+theorem rem_step4 (R q : Nat) (ti tO mp mq : Bool) (hq : q ≤ R)
+    (hs : tO = false → ti = true → q < R) :
+    (ti = true ∧ ((4 : Fin 8).val = 0 ∨ (4 : Fin 8).val = 7) → rem R (pstep 4 ti tO mp mq).1 (qNext q ti tO) ≤ 4 * R + 6) ∧
+    (¬ (ti = true ∧ ((4 : Fin 8).val = 0 ∨ (4 : Fin 8).val = 7)) →
+      rem R (pstep 4 ti tO mp mq).1 (qNext q ti tO) + (if ti then 1 else 0) ≤ rem R 4 q) ∧
+    qNext q ti tO ≤ R := by
+  cases ti <;> cases tO <;> cases mp <;> cases mq <;>
+    simp [pstep, rem, qNext, fv0, fv1, fv2, fv3, fv4, fv5, fv6, fv7] at hs ⊢ <;> omega
+
+set_option linter.unusedSimpArgs false in
+theorem rem_step5 (R q : Nat) (ti tO mp mq : Bool) (hq : q ≤ R)
+    (hs : tO = false → ti = true → q < R) :
+    (ti = true ∧ ((5 : Fin 8).val = 0 ∨ (5 : Fin 8).val = 7) → rem R (pstep 5 ti tO mp mq).1 (qNext q ti tO) ≤ 4 * R + 6) ∧
+    (¬ (ti = true ∧ ((5 : Fin 8).val = 0 ∨ (5 : Fin 8).val = 7)) →
+      rem R (pstep 5 ti tO mp mq).1 (qNext q ti tO) + (if ti then 1 else 0) ≤ rem R 5 q) ∧
+    qNext q ti tO ≤ R := by
+  cases ti <;> cases tO <;> cases mp <;> cases mq <;>
+    simp [pstep, rem, qNext, fv0, fv1, fv2, fv3, fv4, fv5, fv6, fv7] at hs ⊢ <;> omega
+
+set_option linter.unusedSimpArgs false in
+theorem rem_step6 (R q : Nat) (ti tO mp mq : Bool) (hq : q ≤ R)
+    (hs : tO = false → ti = true → q < R) :
+    (ti = true ∧ ((6 : Fin 8).val = 0 ∨ (6 : Fin 8).val = 7) → rem R (pstep 6 ti tO mp mq).1 (qNext q ti tO) ≤ 4 * R + 6) ∧
+    (¬ (ti = true ∧ ((6 : Fin 8).val = 0 ∨ (6 : Fin 8).val = 7)) →
+      rem R (pstep 6 ti tO mp mq).1 (qNext q ti tO) + (if ti then 1 else 0) ≤ rem R 6 q) ∧
+    qNext q ti tO ≤ R := by
+  cases ti <;> cases tO <;> cases mp <;> cases mq <;>
+    simp [pstep, rem, qNext, fv0, fv1, fv2, fv3, fv4, fv5, fv6, fv7] at hs ⊢ <;> omega
+
+set_option linter.unusedSimpArgs false in
+theorem rem_step7 (R q : Nat) (ti tO mp mq : Bool) (hq : q ≤ R)
+    (hs : tO = false → ti = true → q < R) :
+    (ti = true ∧ ((7 : Fin 8).val = 0 ∨ (7 : Fin 8).val = 7) → rem R (pstep 7 ti tO mp mq).1 (qNext q ti tO) ≤ 4 * R + 6) ∧
+    (¬ (ti = true ∧ ((7 : Fin 8).val = 0 ∨ (7 : Fin 8).val = 7)) →
+      rem R (pstep 7 ti tO mp mq).1 (qNext q ti tO) + (if ti then 1 else 0) ≤ rem R 7 q) ∧
+    qNext q ti tO ≤ R := by
+  cases ti <;> cases tO <;> cases mp <;> cases mq <;>
+    simp [pstep, rem, qNext, fv0, fv1, fv2, fv3, fv4, fv5, fv6, fv7] at hs ⊢ <;> omega
+
+theorem rem_step (R q : Nat) (p : Fin 8) (ti tO mp mq : Bool) (hq : q ≤ R)
+    (hs : tO = false → ti = true → q < R) :
+    (ti = true ∧ (p.val = 0 ∨ p.val = 7) → rem R (pstep p ti tO mp mq).1 (qNext q ti tO) ≤ 4 * R + 6) ∧
+    (¬ (ti = true ∧ (p.val = 0 ∨ p.val = 7)) →
+      rem R (pstep p ti tO mp mq).1 (qNext q ti tO) + (if ti then 1 else 0) ≤ rem R p q) ∧
+    qNext q ti tO ≤ R := by
+  have hp : p = 0 ∨ p = 1 ∨ p = 2 ∨ p = 3 ∨ p = 4 ∨ p = 5 ∨ p = 6 ∨ p = 7 := by revert p; decide
+  rcases hp with rfl | rfl | rfl | rfl | rfl | rfl | rfl | rfl
+  · exact rem_step0 R q ti tO mp mq hq hs
+  · exact rem_step1 R q ti tO mp mq hq hs
+  · exact rem_step2 R q ti tO mp mq hq hs
+  · exact rem_step3 R q ti tO mp mq hq hs
+  · exact rem_step4 R q ti tO mp mq hq hs
+  · exact rem_step5 R q ti tO mp mq hq hs
+  · exact rem_step6 R q ti tO mp mq hq hs
+  · exact rem_step7 R q ti tO mp mq hq hs
+
+/-- Timer invariant: the count exceeds the number of decrements that can still happen before the reload. -/
+def TInv (R : Nat) (s : BSState) (q : Nat) : Prop :=
+  ∃ (p : Fin 8) (v : Bool), ctlOf s = shape p v ∧ rem R p q + 1 ≤ s.count ∧ q ≤ R
+
+theorem tInv_not_done {R : Nat} {s : BSState} {q : Nat} (h : TInv R s q) : tmoDone s = false := by
+  obtain ⟨p, v, _, hc, _⟩ := h
+  simp [tmoDone]; omega
+
+theorem tInv_step (w t R : Nat) (ht : 4 * R + 7 ≤ t) (s : BSState) (q : Nat) (x : BSIn)
+    (h : TInv R s q) (hs : x.tO = false → x.ti = true → q < R) :
+    TInv R (bsStep w t s x) (qNext q x.ti x.tO) := by
+  have hd := tInv_not_done h
+  obtain ⟨p, v, hc, hcnt, hq⟩ := h
+  have hstep := ctlOf_step w t s x hd
+  rw [hc, cstep_shape] at hstep
+  have hpong : pongOut s = decide (p.val = 7) := by
+    have := shape_pong p v; rw [← hc] at this; exact this
+  have hst : s.starter = decide (p.val = 0) := by
+    have := shape_starter p v; rw [← hc] at this; exact this
+  obtain ⟨r1, r2, r3⟩ := rem_step R q p x.ti x.tO x.mPing x.mPong hq hs
+  refine ⟨_, _, hstep, ?_, r3⟩
+  have e_cnt : (bsStep w t s x).count = if x.ti then countN t s else s.count := rfl
+  have hpin : pingIn s = decide (p.val = 0 ∨ p.val = 7) := by
+    simp only [pingIn, hst, hpong, hd]
+    by_cases h0 : p.val = 0 <;> by_cases h7 : p.val = 7 <;> simp [h0, h7]
+  rw [e_cnt]
+  by_cases hr : x.ti = true ∧ (p.val = 0 ∨ p.val = 7)
+  · have h1 := r1 hr
+    obtain ⟨hti, hp07⟩ := hr
+    have hpb : pingIn s = true := by rw [hpin]; exact decide_eq_true hp07
+    have hcn : countN t s = t := by simp [countN, hpb]
+    rw [hti] at h1 ⊢
+    simp only [if_true, hcn]
+    omega
+  · have h2 := r2 hr
+    cases hti : x.ti
+    · rw [hti] at h2
+      simp only [Bool.false_eq_true, if_false, Nat.add_zero] at h2 ⊢
+      omega
+    · have hnp : ¬ (p.val = 0 ∨ p.val = 7) := fun hh => hr ⟨hti, hh⟩
+      have hpb : pingIn s = false := by rw [hpin]; exact decide_eq_false hnp
+      have hcn : countN t s = s.count - 1 := by simp [countN, hpb, hd]
+      rw [hti] at h2
+      simp only [if_true, hcn] at h2 ⊢
+      omega
+
+/-- **No spurious time-out.**  If the i clock never has more than `R` consecutive edges without an o-clock edge
+    and the time-out is at least `4R + 7` i-cycles, the retry timer never expires. -/
+theorem noTimeout_of_burst (w t R : Nat) (ht : 4 * R + 7 ≤ t) (xs : List BSIn) :
+    ∀ (s : BSState) (q : Nat), TInv R s q → IBurst R q xs → NoTimeout w t s xs := by
+  induction xs with
+  | nil => intro _ _ _ _; trivial
+  | cons x xs ih =>
+    intro s q h hb
+    refine ⟨tInv_not_done h, ?_⟩
+    simp only [IBurst] at hb
+    cases hto : x.tO
+    · cases hti : x.ti
+      · simp [hto, hti] at hb
+        have := tInv_step w t R ht s q x h (by simp [hti])
+        simp only [qNext, hto, hti] at this
+        exact ih _ _ this hb
+      · simp [hto, hti] at hb
+        have := tInv_step w t R ht s q x h (fun _ _ => hb.1)
+        simp only [qNext, hto, hti] at this
+        exact ih _ _ this hb.2
+    · simp [hto] at hb
+      have := tInv_step w t R ht s q x h (by simp [hto])
+      simp only [qNext, hto] at this
+      exact ih _ _ this hb
+
+theorem tInv_init (t R : Nat) (ht : 4 * R + 7 ≤ t) : TInv R (bsInit t) 0 :=
+  ⟨0, false, by simp [ctlOf, bsInit, shape], by simp [rem, bsInit]; omega, by omega⟩
+
+
+/-! Both schedule predicates are decidable (used by the concrete examples). -/
+
+def decNoTimeout (w t : Nat) : (s : BSState) → (xs : List BSIn) → Decidable (NoTimeout w t s xs)
+  | _, [] => isTrue trivial
+  | s, x :: xs =>
+    have := decNoTimeout w t (bsStep w t s x) xs
+    show Decidable (tmoDone s = false ∧ NoTimeout w t (bsStep w t s x) xs) from inferInstance
+
+instance (w t : Nat) (s : BSState) (xs : List BSIn) : Decidable (NoTimeout w t s xs) := decNoTimeout w t s xs
+
+def decIBurst (R : Nat) : (q : Nat) → (xs : List BSIn) → Decidable (IBurst R q xs)
+  | _, [] => isTrue trivial
+  | q, x :: xs =>
+    have := decIBurst R 0 xs
+    have := decIBurst R (q + 1) xs
+    have := decIBurst R q xs
+    show Decidable (if x.tO then IBurst R 0 xs else if x.ti then q < R ∧ IBurst R (q + 1) xs else IBurst R q xs)
+      from inferInstance
+
+instance (R q : Nat) (xs : List BSIn) : Decidable (IBurst R q xs) := decIBurst R q xs
+
 end Litex.Cdc
